@@ -26,7 +26,7 @@ def parse_sem_line(line):
     f = dict(x.split(":", 1) if ":" in x else x.split("=", 1) for x in line.split(" "))
     tr = {}
     if f.get("T", "-") != "-":
-        tr = {k: int(v) for k, v in (kv.split("=") for kv in f["T"].split(","))}
+        tr = {k: (int(v) if k != "order" else ([] if v == "-" else v.split("."))) for k, v in (kv.split("=") for kv in f["T"].split(","))}
     return {"frontier": parse_result(f["F"]), "exec": parse_result(f["X"]), "trace": tr, "pat_ok": line.endswith("ok=1")}
 
 
